@@ -23,6 +23,22 @@ def _alarm(signum, frame):
     raise TranspileTimeout()
 
 
+import contextlib
+
+
+@contextlib.contextmanager
+def time_limit(seconds: float = 30.0):
+    """Wall-clock bound around an in-process parse()/emit(): raises TranspileTimeout (a transpiler that does not
+    return must not hang the check; what the expiry means is the caller's business)."""
+    old = signal.signal(signal.SIGALRM, _alarm)
+    signal.setitimer(signal.ITIMER_REAL, seconds)
+    try:
+        yield
+    finally:
+        signal.setitimer(signal.ITIMER_REAL, 0)
+        signal.signal(signal.SIGALRM, old)
+
+
 def transpile(src: str, *, timeout_s: float = 20.0) -> dict:
     """parse+emit in this process. status: ok | rejected (ValueError/SyntaxError) | internal | timeout."""
     use_repo()
